@@ -1,4 +1,4 @@
-import SSVerif.Proofs.AcmodDec
+import SSVerif.Proofs.AcmodFull
 /-!
 # C07 — decoding results do not depend on chunking or buffering mode
 
@@ -159,6 +159,115 @@ theorem C07_ring_safe (win : Nat) (skip : Nat → Bool) (s0 : St) (ops post : Li
   have hn := h.nff
   exact ⟨h.core.nofault, by omega, h.core.room, h.core.fbLen, h.core.outIdx, h.st⟩
 
+/-! ## the batch regime (`full_utt = 1`)
+
+The property does not compare the batch regime with streaming (batch CMN is a different normalisation by design);
+what is proved is the batch regime's own canonical form, for **any** decoder state (in particular any size of the
+cepstrum buffer, which an earlier batch utterance enlarges for good) and any interleaving of `no_search`, queries
+and alignment around the one `decoder_process_*(…, full_utt = 1)` call. -/
+
+/-- structural facts about the state a batch utterance starts from: any buffer sizes, any contents -/
+structure WF0F (s0 : St) : Prop where
+  nofault : s0.fault = none
+  cepLen : s0.cepbuf.length = livebuf
+  fbLen : s0.featBuf.length = s0.nFeatAlloc
+  alloc1 : 1 ≤ s0.nFeatAlloc
+  mfcLen : s0.mfcBuf.length = s0.nMfcAlloc
+  mfcAlloc1 : 1 ≤ s0.nMfcAlloc
+
+/-- start, queries, the batch call (one pass), queries / alignment, `decoder_end_utt`, queries / alignment -/
+def runUttFull (win : Nat) (skip : Nat → Bool) (s0 : St) (pre : List Op) (ns : Bool) (r : FullResp) (mid post : List Op) : St :=
+  runOps true win skip
+    (decEnd true win skip
+      (runOps true win skip (step true win skip (runOps true win skip (startUtt s0) pre) (.processFull ns [r])) mid) false) post
+
+theorem runUttFull_inv (win : Nat) (skip : Nat → Bool) (s0 : St) (pre mid post : List Op) (ns : Bool) (r : FullResp)
+    (hwf : WF0F s0) (hw : 2 * win ≤ livebuf) (hmore : r.more = false) (hM : 1 ≤ fullCount r)
+    (hc : s0.cmnBatch = true ∨ s0.cmnFrames + fullCount r ≤ cmnWinHwm)
+    (hpre : ∀ op, op ∈ pre → op.isProcess = false) (hmid : ∀ op, op ∈ mid → op.isProcess = false)
+    (hpost : ∀ op, op ∈ post → op.isProcess = false) :
+    BInv win (runUttFull win skip s0 pre ns r mid post) (fullCount r) ∧
+      (runUttFull win skip s0 pre ns r mid post).nFeatFrame = 0 := by
+  have h0 : BInv win (startUtt s0) 0 := by
+    refine ⟨hwf.nofault, hwf.cepLen, hwf.fbLen, hwf.alloc1, hwf.mfcLen, hwf.mfcAlloc1, rfl, rfl, rfl, Nat.zero_le _, ?_, ?_, ?_, ?_⟩
+    · show 0 = 0 % s0.nFeatAlloc; rw [Nat.zero_mod]
+    · intro k hk; omega
+    · show SearchedOK (startUtt s0); unfold SearchedOK startUtt; rfl
+    · intro l hl; exact absurd hl (by simp [startUtt])
+  obtain ⟨p1, p2⟩ := runOps_B win skip pre _ h0 hpre
+  have hst1 : (runOps true win skip (startUtt s0) pre).state = .started := by rw [p2.state]; rfl
+  have hmv1 : (runOps true win skip (startUtt s0) pre).cmnMoved = false := by rw [p2.moved]; rfl
+  have hc1 : (runOps true win skip (startUtt s0) pre).cmnBatch = true ∨
+      (runOps true win skip (startUtt s0) pre).cmnFrames + fullCount r ≤ cmnWinHwm := by
+    rw [p2.batch, p2.frames]; exact hc
+  obtain ⟨f1, f2⟩ := decProcessFull_B win skip _ ns r p1 hst1 hmv1 hmore hM hw hc1
+  have hstep : step true win skip (runOps true win skip (startUtt s0) pre) (.processFull ns [r]) =
+      decProcessFull win skip (runOps true win skip (startUtt s0) pre) ns [r] := by
+    simp only [step]
+    rw [if_neg (by rw [hst1]; decide)]
+  obtain ⟨m1, m2⟩ := runOps_B win skip mid _ f1 hmid
+  obtain ⟨e1, e2, e3⟩ := decEnd_B win skip _ m1 (by rw [m2.state]; exact f2)
+  unfold runUttFull
+  rw [hstep]
+  obtain ⟨q1, q2⟩ := runOps_B win skip post _ e1 hpost
+  refine ⟨q1, ?_⟩
+  -- queries and alignment on the final result leave the queue empty
+  have : ∀ (ops : List Op) (s : St), BInv win s (fullCount r) → s.nFeatFrame = 0 →
+      (∀ op, op ∈ ops → op.isProcess = false) → (runOps true win skip s ops).nFeatFrame = 0 := by
+    intro ops
+    induction ops with
+    | nil => intro s _ h _; exact h
+    | cons op ops ih =>
+      intro s hb hn hp
+      have hop := hp op (List.mem_cons_self ..)
+      simp only [runOps, List.foldl_cons]
+      cases op with
+      | process ns rs => simp [Op.isProcess] at hop
+      | processFull ns rs => simp [Op.isProcess] at hop
+      | query => exact ih s hb hn (fun op' hm => hp op' (List.mem_cons_of_mem _ hm))
+      | align steps =>
+        cases steps with
+        | none => exact ih s hb hn (fun op' hm => hp op' (List.mem_cons_of_mem _ hm))
+        | some upto =>
+          refine ih _ (hb.align upto).1 ?_ (fun op' hm => hp op' (List.mem_cons_of_mem _ hm))
+          simp only [step]
+          rw [alignPassW s upto hb.qinv]
+          exact hn
+  exact this post _ e1 e2 hpost
+
+/-- **features_canonical, batch regime.**  One `decoder_process_*(…, full_utt = 1)` call on the whole utterance, with or
+    without `no_search`, queries and alignment before / after it and after `decoder_end_utt`, on a decoder in any
+    state: the search is handed, in order and each once, the canonical windows of the frames `0 … M-1`
+    (`M = fullCount r` frames delivered by the front end), every frame normalised exactly once. -/
+theorem C07_full_features_canonical (win : Nat) (skip : Nat → Bool) (s0 : St) (pre mid post : List Op) (ns : Bool) (r : FullResp)
+    (hwf : WF0F s0) (hw : 2 * win ≤ livebuf) (hmore : r.more = false) (hM : 1 ≤ fullCount r)
+    (hc : s0.cmnBatch = true ∨ s0.cmnFrames + fullCount r ≤ cmnWinHwm)
+    (hpre : ∀ op, op ∈ pre → op.isProcess = false) (hmid : ∀ op, op ∈ mid → op.isProcess = false)
+    (hpost : ∀ op, op ∈ post → op.isProcess = false) :
+    let sf := runUttFull win skip s0 pre ns r mid post
+    sf.searched = (List.range (fullCount r)).map (fun k => (k, some (canon win (fullCount r) k))) ∧ sf.nextId = fullCount r ∧
+      sf.fault = none ∧ sf.nFeatFrame = 0 ∧ sf.outputFrame = fullCount r := by
+  intro sf
+  obtain ⟨h, hn⟩ := runUttFull_inv win skip s0 pre mid post ns r hwf hw hmore hM hc hpre hmid hpost
+  have hcnt := h.cnt
+  exact ⟨h.searched_eq hn, h.next, h.nofault, hn, by have : sf.nFeatFrame = 0 := hn; have : sf.outputFrame + sf.nFeatFrame = fullCount r := hcnt; omega⟩
+
+/-- **streaming and batch hand the search the same windows** (same frame count): the two regimes differ only in the
+    normalisation the opaque per-frame CMN step applies, not in which frames enter which window -/
+theorem C07_full_equals_streaming_windows (win : Nat) (skip skip' : Nat → Bool) (s0 s0' : St) (ops post pre mid post' : List Op)
+    (tail ns : Bool) (r : FullResp) (hwf : WF0 s0) (hwf' : WF0F s0') (hw : nMfc + 3 * win + 1 ≤ livebuf)
+    (hcmn : s0.cmnFrames + offeredOps ops + (if tail then 1 else 0) ≤ cmnWinHwm)
+    (hfe : tail = true ∨ (runOps true win skip (startUtt s0) ops).nextId = 0)
+    (hstream : ∀ op, op ∈ ops → op.isFull = false) (hpost : ∀ op, op ∈ post → op.isProcess = false)
+    (hmore : r.more = false) (hM : 1 ≤ fullCount r)
+    (hc : s0'.cmnBatch = true ∨ s0'.cmnFrames + fullCount r ≤ cmnWinHwm)
+    (hpre : ∀ op, op ∈ pre → op.isProcess = false) (hmid : ∀ op, op ∈ mid → op.isProcess = false)
+    (hpost' : ∀ op, op ∈ post' → op.isProcess = false)
+    (hsame : (runUtt true win skip s0 ops tail post).nextId = fullCount r) :
+    (runUtt true win skip s0 ops tail post).searched = (runUttFull win skip' s0' pre ns r mid post').searched := by
+  rw [C07_features_canonical win skip s0 ops post tail hwf hw hcmn hfe hstream hpost,
+    (C07_full_features_canonical win skip' s0' pre mid post' ns r hwf' (by omega) hmore hM hc hpre hmid hpost').1, hsame]
+
 /-- the side condition on the window size holds for every value `feat_init` assigns, and the feature buffer grows
     by default (regenerated constants; re-checked by `lake build` whenever they change) -/
 theorem C07_consts_ok : (∀ w, w ∈ featWindows → nMfc + 3 * w + 1 ≤ livebuf) ∧ growDefault = true ∧ cmnWin ≤ cmnWinHwm := by
@@ -189,6 +298,13 @@ example : WF0 (St.init 500) ∧ nMfc + 3 * 3 + 1 ≤ livebuf ∧
 /-- an utterance shorter than one analysis window: no frame before the end, one tail frame (STARTED → ENDED) -/
 example : (runUtt true 3 (fun _ => false) (St.init 500) [.process false [⟨0, false⟩]] true []).searched =
     [(0, some ((List.replicate 7 0).map fun i => some ⟨i, 1, false⟩))] := by decide +kernel
+
+/-- the batch regime on the same 9 frames (8 from `fe_process`, one from `fe_end`), buffered, with queries -/
+example : (runUttFull 3 (fun _ => false) (St.init 500) [.query] true ⟨9, 8, false, true⟩ [.align (some 4)] [.align (some 9)]).searched =
+    (runUtt true 3 (fun _ => false) (St.init 500) exOps true [.align (some 9)]).searched := by decide +kernel
+
+example : fullCount ⟨9, 8, false, true⟩ = 9 ∧ WF0F (St.init 500) :=
+  ⟨by decide, ⟨rfl, by simp [St.init], by simp [St.init], (by decide : 1 ≤ nMfc), by simp [St.init], (by decide : 1 ≤ nMfc)⟩⟩
 
 /-- **the pinned tree (D8) on the model**: the control flow without the repair (`fixD8 = false`) hands the search a
     first window that contains three slots the utterance never wrote (stale content of the live buffer) — same
